@@ -38,6 +38,7 @@ pub struct Syn<'t> {
   pub comments: Vec<CommentPlaced>,
   comment_counter: u32,
   depth: u32,
+  shared_comment_texts: bool,
 }
 
 const LOWER: &[&str] = &["a", "b", "c", "x", "y", "foo", "bar", "acc", "i", "n", "value", "aVeryLongIdentifierNumberOne", "anotherQuiteLongLocalName2", "f", "g"];
@@ -63,7 +64,7 @@ const LONG_COMMENT: &str = "this is a long comment with many words so that the p
 impl<'t> Syn<'t> {
   pub fn new(t: &'t mut Tape, cfg: SynCfg) -> Syn<'t> {
     let budget = cfg.budget;
-    Syn { t, out: String::new(), cfg, budget, prev: String::new(), last_was_dot_id: false, at_line_start: true, comments: vec![], comment_counter: 0, depth: 0 }
+    Syn { t, out: String::new(), cfg, budget, prev: String::new(), last_was_dot_id: false, at_line_start: true, comments: vec![], comment_counter: 0, depth: 0, shared_comment_texts: false }
   }
 
   // ------------------------------------------------------------------ trivia and tokens
@@ -119,6 +120,10 @@ impl<'t> Syn<'t> {
 
   fn comment_text(&mut self) -> String {
     self.comment_counter += 1;
+    if self.shared_comment_texts && self.t.bool(1, 2) {
+      // identical comment groups in several places (no unique marker)
+      return ["same", "default", "same same"][self.t.choose(3)].to_string();
+    }
     let marker = format!("c{}", self.comment_counter);
     let body = match self.t.choose(8) {
       0 => String::new(),
@@ -148,7 +153,7 @@ impl<'t> Syn<'t> {
       if !self.out.is_empty() && !self.out.ends_with(|c: char| c.is_ascii_whitespace()) {
         self.out.push(' ');
       }
-      match self.t.choose(6) {
+      match self.t.choose(8) {
         0 | 1 => {
           self.out.push_str(&format!("// {text}\n"));
           self.at_line_start = true;
@@ -169,8 +174,17 @@ impl<'t> Syn<'t> {
           self.out.push_str(&format!("/*\n * {}\n * {}\n */", words[..mid].join(" "), words[mid..].join(" ")));
           self.comments.push(CommentPlaced { kind: "/*", marker });
         }
-        _ => {
+        5 => {
           self.out.push_str(&format!("/**\n   * {text}\n   */"));
+          self.comments.push(CommentPlaced { kind: "/**", marker });
+        }
+        6 => {
+          // closing delimiter at column 0
+          self.out.push_str(&format!("/*\n{text}\n*/"));
+          self.comments.push(CommentPlaced { kind: "/*", marker });
+        }
+        _ => {
+          self.out.push_str(&format!("/** {text}\n*/"));
           self.comments.push(CommentPlaced { kind: "/**", marker });
         }
       }
@@ -233,6 +247,7 @@ impl<'t> Syn<'t> {
   // ------------------------------------------------------------------ module level
 
   pub fn module(&mut self) {
+    self.shared_comment_texts = self.cfg.comment_permille > 0 && self.t.bool(1, 5);
     let nimports = self.t.small_len(3);
     for _ in 0..nimports {
       self.import();
@@ -576,6 +591,19 @@ impl<'t> Syn<'t> {
   }
 
   fn string(&mut self) {
+    if self.t.bool(1, 3) {
+      // compositional literal: every mix of plain text, escaped quotes, escaped backslashes, escapes
+      const ATOMS: &[&str] = &["a", "b c", "\\\"", "\\\\", "\\n", "\\t", "//", "/*", "*/", "'", " ", "0", "é"];
+      let n = self.t.small_len(6);
+      let mut lit = String::from("\"");
+      for _ in 0..n {
+        let a = ATOMS[self.t.choose(if self.cfg.non_ascii { ATOMS.len() } else { ATOMS.len() - 1 })];
+        lit.push_str(a);
+      }
+      lit.push('"');
+      self.tok(&lit);
+      return;
+    }
     let s = if self.cfg.non_ascii && self.t.bool(1, 3) { STRS_NON_ASCII[self.t.choose(STRS_NON_ASCII.len())] } else { STRS[self.t.choose(STRS.len())] };
     self.tok(s);
   }
